@@ -272,43 +272,136 @@ def cgiStdin (bodyLen : Int) (segs : List Bytes) : StdinSt :=
   let out := segs.flatten
   { out := out, eof := (out.length : Int) = bodyLen }
 
-/-! ### HTTP/2: DATA frames -> request body (h2_recv_data(), h2_recv_end_data() of h2.c) -/
+/-! ### HTTP/2: DATA frames -> request body (h2_recv_data(), h2_recv_end_data(), h2_recv_reqbody()) -/
 
+/-- a DATA frame as it is on the wire: flags and the whole frame payload
+    ([Pad Length] data [padding]) -/
 structure DataFrame where
-  payload : Bytes            -- frame data without Pad Length byte and padding
-  pad : Option Nat := none   -- PADDED flag with its pad length (padding is discarded)
+  padded : Bool := false
   endStream : Bool := false
+  raw : Bytes
 deriving Repr
+
+/-- the data a DATA frame carries (RFC 9113 6.1): Pad Length octet and padding removed;
+    `none` = Pad Length >= frame length (connection error PROTOCOL_ERROR) -/
+def DataFrame.data (f : DataFrame) : Option Bytes :=
+  if f.padded then
+    match f.raw with
+    | [] => none
+    | p :: rest => if p.toNat ≥ f.raw.length then none else some (rest.take (rest.length - p.toNat))
+  else some f.raw
+
+/-- a well-formed DATA frame carrying `d` with `pad` octets of padding -/
+def DataFrame.mk' (d : Bytes) (pad : Option Nat) (endStream : Bool) : DataFrame :=
+  match pad with
+  | none => { endStream := endStream, raw := d }
+  | some n => { padded := true, endStream := endStream, raw := n.toUInt8 :: d ++ List.replicate n 0 }
 
 inductive H2StreamState
   | open | halfClosedRemote | closed
 deriving Repr, DecidableEq
 
+structure H2Cfg where
+  consumer : Bool := false   -- the request body is streamed and the backend side has taken every byte
+                             -- accepted before the current frame (reqbody_queue.bytes_out = bytes_in)
+  maxSize : Nat := 0         -- server.max-request-size in kB, 0 = unlimited
+deriving Repr
+
 structure H2Body where
-  out : Bytes := []                    -- r->reqbody_queue (nothing consumed yet)
+  out : Bytes := []                    -- all bytes put into r->reqbody_queue (bytes_in = out.length)
   bodyLen : Int := -1                  -- r->reqbody_length (-1: no Content-Length)
   state : H2StreamState := .open
   rst : Nat := 0                       -- RST_STREAM frames sent for the stream
+  goaway : Bool := false               -- connection error sent; no further frame is processed
+  status : Nat := 0                    -- r->http_status set here (413)
 deriving Repr, DecidableEq
 
-/-- one DATA frame on the stream (flow-control windows are never the limit here: lighttpd leaves
+/-- one DATA frame on the stream (the flow-control windows are never the limit: lighttpd leaves
     the stream window untouched and re-credits the connection window).  The result does not
     depend on how the frame bytes were split across network reads. -/
-def h2RecvData (st : H2Body) (f : DataFrame) : H2Body :=
-  let total : Int := ((st.out.length + f.payload.length : Nat) : Int)
-  if st.state ≠ .open then
-    { st with rst := st.rst + 1, state := .closed }                 -- STREAM_CLOSED
-  else if st.bodyLen ≥ 0 ∧ st.bodyLen < total then
-    { st with rst := st.rst + 1, state := .closed }                 -- more data than Content-Length
-  else if f.endStream then
-    if st.bodyLen = -1 then
-      { st with out := st.out ++ f.payload, bodyLen := total, state := .halfClosedRemote }
-    else if st.bodyLen ≠ total then
-      { st with rst := st.rst + 1, state := .closed }               -- less data than Content-Length
-    else { st with out := st.out ++ f.payload, state := .halfClosedRemote }
-  else { st with out := st.out ++ f.payload }
+def h2RecvData (c : H2Cfg) (st : H2Body) (f : DataFrame) : H2Body :=
+  if st.goaway then st else
+  match f.data with
+  | none => { st with goaway := true, state := .closed }              -- h2_send_goaway_e(PROTOCOL_ERROR)
+  | some d =>
+    let total : Int := ((st.out.length + d.length : Nat) : Int)
+    let bytesOut : Nat := if c.consumer then st.out.length else 0
+    if st.state ≠ .open then
+      { st with rst := st.rst + 1, state := .closed }                 -- STREAM_CLOSED
+    else if st.bodyLen ≥ 0 ∧ st.bodyLen < total then
+      { st with rst := st.rst + 1, state := .closed }                 -- more data than Content-Length
+    else if f.endStream then
+      -- h2_recv_end_data()
+      if st.bodyLen = -1 then
+        { st with out := st.out ++ d, bodyLen := total, state := .halfClosedRemote }
+      else if st.bodyLen ≠ total ∧ bytesOut = 0 then
+        { st with rst := st.rst + 1, state := .closed }               -- less data than Content-Length
+      else { st with out := st.out ++ d, state := .halfClosedRemote } -- (short: the consumer is told, below)
+    else if c.maxSize = 0 then { st with out := st.out ++ d }
+    else
+      let n : Int := ((c.maxSize * 1024 : Nat) : Int) - total
+      if n ≥ 0 then { st with out := st.out ++ d }
+      else if -n > 65536 ∨ st.status = 0 then
+        (if st.status = 0 then { st with status := 413 }              -- frame discarded
+         else { st with rst := st.rst + 1 })                          -- RST_STREAM (stream state unchanged)
+      else { st with out := st.out ++ d }                             -- sink up to 64 KiB more
 
-def h2Body (contentLength : Int) (frames : List DataFrame) : H2Body :=
-  frames.foldl h2RecvData { bodyLen := contentLength }
+def h2Body (c : H2Cfg) (contentLength : Int) (frames : List DataFrame) : H2Body :=
+  frames.foldl (h2RecvData c) { bodyLen := contentLength }
+
+/-- the data carried by a list of frames, in order -/
+def framesData (fs : List DataFrame) : Bytes := (fs.filterMap (·.data)).flatten
+
+inductive ReadRes
+  | ready        -- whole body received: the request can be handed on / completed
+  | more         -- streaming: go on with what is there
+  | wait
+  | error        -- stream ended without the announced amount of data: request is aborted
+deriving Repr, DecidableEq
+
+/-- h2_recv_reqbody() (con->reqbody_read for HTTP/2): what the backend side is told -/
+def h2ReqbodyRead (streaming : Bool) (st : H2Body) : ReadRes :=
+  if (st.out.length : Int) = st.bodyLen then .ready
+  else if st.state ≠ .open then .error
+  else if streaming then .more else .wait
+
+/-! ### NUL-free byte strings (what the request parser lets through; SCGI / envp need it) -/
+
+def NulFree (b : Bytes) : Prop := (0 : UInt8) ∉ b
+
+def EnvNulFree (env : List (Bytes × Bytes)) : Prop := ∀ p ∈ env, NulFree p.1 ∧ NulFree p.2
+
+/-- every byte string of the request and of the backend options is NUL-free -/
+structure ReqNulFree (o : CgiOpts) (r : CgiReq) : Prop where
+  query : NulFree r.query
+  targetOrig : NulFree r.targetOrig
+  target : NulFree r.target
+  path : NulFree r.path
+  pathinfo : NulFree r.pathinfo
+  basedir : NulFree r.basedir
+  physPath : NulFree r.physPath
+  method : NulFree r.method
+  serverTag : NulFree (r.serverTag.getD [])
+  scheme : NulFree r.scheme
+  srvToken : NulFree r.srvToken
+  localAddr : NulFree r.localAddr
+  serverName : NulFree r.serverName
+  remoteAddr : NulFree r.remoteAddr
+  docroot : NulFree (o.docroot.getD [])
+  headers : ∀ p ∈ r.headers, NulFree p.2
+  env : ∀ p ∈ r.env, NulFree p.2
+
+/-! ### names of the server-defined variables (used by the property statements) -/
+
+def metaNamesS : List String :=
+  ["CONTENT_LENGTH", "QUERY_STRING", "REQUEST_URI", "REDIRECT_URI", "REDIRECT_STATUS", "SCRIPT_NAME",
+   "PATH_INFO", "PATH_TRANSLATED", "SCRIPT_FILENAME", "DOCUMENT_ROOT", "REQUEST_METHOD",
+   "SERVER_PROTOCOL", "SERVER_SOFTWARE", "GATEWAY_INTERFACE", "REQUEST_SCHEME", "HTTPS", "SERVER_PORT",
+   "SERVER_ADDR", "SERVER_NAME", "REMOTE_ADDR", "REMOTE_PORT"]
+
+def metaNames : List Bytes := metaNamesS.map ofString
+
+/-- the three request-header look-alikes synthesised for an HTTP/2 extended CONNECT -/
+def h2ExtNamesS : List String := ["HTTP_SEC_WEBSOCKET_KEY", "HTTP_UPGRADE", "HTTP_CONNECTION"]
 
 end LtVerif
